@@ -298,6 +298,14 @@ func gpermGen(rng *hx.Rng, n int, tier string, w *hx.Writer) {
 			runPermGroup(genNamedCycle(r9.Fork()), k, nat, []string{"namedcycle"}, w)
 		}
 	}
+	// (drawn after everything else) the same runner chains with Orders further apart than MaxInt: MinInt next to negative
+	// Orders, MaxInt next to positive ones — a comparator that subtracts overflows there and no longer orders them
+	r9x := rng.Fork()
+	for i := 0; i < n/50+2; i++ {
+		if active() {
+			runPermGroup(genRunnerChainExtreme(r9x.Fork()), k, nat, []string{"runnerchain", "extreme-orders"}, w)
+		}
+	}
 }
 
 func gpermReplay(scn string, w *hx.Writer) {
